@@ -18,7 +18,7 @@ def load():
         line = line.strip()
         if not line.startswith('finding:'):
             continue
-        body, _, what = line[len('finding:'):].partition('::')
+        body, _, what = line[len('finding:'):].partition(' :: ')
         rec = {'what': what.strip(), 'raw': line}
         # key=value where value runs until the next ` key=`
         for m in re.finditer(r'(\w+)=(.*?)(?=\s+\w+=|$)', body.strip()):
